@@ -348,7 +348,7 @@ def doIter (c : Ctx) (vs : List Float) (st : St) : Option St := do
       let scaleS := (List.zipWith (fun (p : Pair Float) a => fabs a * maxAbs p.s) sv.pairs sv.alphas).foldl (· + ·) 0.0
       -- `smeared_e` is a dot product: the order of summation (Eigen vs the model's right fold) matters relative to the summed terms
       let scaleE := (List.zipWith (fun (p : Pair Float) a => fabs a * fabs p.e) sv.pairs sv.alphas).foldl (· + ·) 0.0
-      [miuS, gS scaleE, gF e', gS scaleS, gF sn', gS (sn' * scaleS / sv.miu), gF (delta c.n sv.miu sv.pairs sv.alphas), gLe e' tl,
+      [miuS, gS scaleE, gF e', gS scaleS, gF sn', gS ((sn' + 1e-12 * scaleS) * scaleS / sv.miu), gF (delta c.n sv.miu sv.pairs sv.alphas), gLe e' tl,
        gLeS scaleS sn' tl, gS (scaleS / sv.miu), gL (proximal sv.miu sv.x s')]
   -- part 2: the decision of the loop body on the logged numbers
   let d := vsub y x
